@@ -9,6 +9,8 @@ package main
 import (
 	"fmt"
 	"math/big"
+	"os"
+	"runtime/debug"
 	"sort"
 	"time"
 
@@ -89,6 +91,9 @@ func (w *World) Tx(f func(ctx sdk.Context) error) (res string) {
 	cctx, write := w.ctx.CacheContext()
 	defer func() {
 		if r := recover(); r != nil {
+			if os.Getenv("VERIF_DEBUG") == "tx" {
+				fmt.Fprintf(os.Stderr, "TX PANIC h=%d: %v\n%s\n", w.height, r, debug.Stack())
+			}
 			res = "panic"
 		}
 	}()
@@ -107,6 +112,9 @@ func (w *World) Hook(f func(ctx sdk.Context)) (res string) {
 	cctx, write := w.ctx.CacheContext()
 	defer func() {
 		if r := recover(); r != nil {
+			if os.Getenv("VERIF_DEBUG") != "" {
+				fmt.Fprintf(os.Stderr, "HOOK PANIC h=%d: %v\n%s\n", w.height, r, debug.Stack())
+			}
 			res = "panic"
 		}
 	}()
